@@ -226,7 +226,12 @@ def body_form(c, ctx):
                  f'{np.abs(r + F).max() if r.shape == F.shape else "shape"} (scale {sF:.2e})', **sig)
     # the elemental route: local Jacobians in the layout of the library's other elemental data
     if 'hessian' not in params and c['seed'] % 3 == 0:
-        Je = NonlinearForm(jx, **params).elemental(basis, x=None if x0 is None else x0.copy())[0]
+        el = NonlinearForm(jx, **params).elemental(basis, x=None if x0 is None else x0.copy())
+        Je = el[0]
+        re = np.asarray(el[1].todefault())
+        if re.shape != r.shape or not np.allclose(re, r, rtol=0, atol=1e-12 * sF):
+            ctx.fail('elemental_vector', f'{fam}: elemental(...)[1].todefault() differs from the vector returned by assemble() by '
+                     f'{np.abs(re - r).max() if re.shape == r.shape else (re.shape, r.shape)}', **sig)
         Ke = BilinearForm(lin, **fkw).elemental(basis, prev=prev)
         la, lb = np.asarray(Je.tolocal()), np.asarray(Ke.tolocal())
         if la.shape != lb.shape or not np.allclose(la, lb, rtol=0, atol=1e-9 * (1.0 + np.abs(lb).max())):
@@ -276,18 +281,26 @@ def body_basis_product(c, ctx, m, E):
     n = c.get('nbases', 3)
     a, b = c['a'], c['b']
     els = [E, getattr(skfem, SCALAR[kind][0]), getattr(skfem, SCALAR[kind][-1])][:n]
-    bases = [CellBasis(m, e_(), intorder=4) for e_ in els]
+    # every second case: the later bases live on a rigidly translated copy of the mesh (two bodies), and the integrand reads the
+    # coordinates from w, which are those of the FIRST basis (CompositeBasis.default_parameters); same dx, h and n
+    other = c['seed'] % 2 == 1
+    m2 = m.translated(tuple([1.0] + [0.5] * (m.dim() - 1))) if other else m
+    cx = 0.5 if other else 0.0
+    bases = [CellBasis(m if i == 0 else m2, e_(), intorder=4) for i, e_ in enumerate(els)]
     cb = bases[0] * bases[1] if n == 2 else CompositeBasis(*bases)
+    X0 = np.asarray(bases[0].global_coordinates().value)[0]
     sig = dict(fam='basis_product', nbases=n)
-    ctx.cls(desc['cls'], 'fam:basis_product', f'nbases={n}')
+    ctx.cls(desc['cls'], 'fam:basis_product', f'nbases={n}', 'second_mesh' if other else 'one_mesh')
     ctx.nt(True)
 
     def F(*args):
-        us, vs = args[:n], args[n:2 * n]
+        us, vs, w = args[:n], args[n:2 * n], args[-1]
         out = 0
         for i in range(n):
             nx = us[(i + 1) % n]
             out = out + JH.dot(JH.grad(us[i]), JH.grad(vs[i])) + a * us[i] * nx * vs[i] + b * jnp.sin(1.0 * us[i].value) * vs[i]
+            if other:
+                out = out + cx * w.x[0] * us[i] * vs[i]
         return out
     rng = np.random.RandomState(c['seed'])
     Ns = [bb.N for bb in bases]
@@ -304,9 +317,9 @@ def body_basis_product(c, ctx, m, E):
     for i in range(n):
         j = (i + 1) % n
         Fv[off[i]:off[i + 1]] = LinearForm(lambda v, w: dot(grad(w['ui']), grad(v)) + a * w['ui'] * w['un'] * v
-                                           + b * np.sin(w['ui']) * v).assemble(bases[i], ui=prev[i], un=prev[j])
-        Kii = BilinearForm(lambda u, v, w: dot(grad(u), grad(v)) + a * u * w['un'] * v + b * np.cos(w['ui']) * u * v
-                           ).assemble(bases[i], ui=prev[i], un=prev[j]).toarray()
+                                           + b * np.sin(w['ui']) * v + cx * w['X0'] * w['ui'] * v).assemble(bases[i], ui=prev[i], un=prev[j], X0=X0)
+        Kii = BilinearForm(lambda u, v, w: dot(grad(u), grad(v)) + a * u * w['un'] * v + b * np.cos(w['ui']) * u * v + cx * w['X0'] * u * v
+                           ).assemble(bases[i], ui=prev[i], un=prev[j], X0=X0).toarray()
         Kij = BilinearForm(lambda u, v, w: a * w['ui'] * u * v).assemble(bases[j], bases[i], ui=prev[i]).toarray()
         K[off[i]:off[i + 1], off[i]:off[i + 1]] += Kii
         K[off[i]:off[i + 1], off[j]:off[j + 1]] += Kij
